@@ -787,12 +787,36 @@ Definition restart (s : state) : state :=
                                (match aget (st_lw s) (fst e) with Some w => w | None => 1 end)
                                (match aget (st_rw s) (fst e) with Some w => w | None => 1 end) 0 false)) (st_meta s))
         (st_meta s) (st_lw s) (st_rw s) [] (cver s) (cenv s).
-Inductive hop := HOp (o : op) | HRestart | HBulk (ps : list payload).   (* HBulk: that many PutStore calls, observed once at the end *)
+(* what ANOTHER leader did to the storage while this member was a follower (its cache from the earlier term survives) *)
+Inductive fchange :=
+| FState (id : Z) (st : sstate) (pd : bool)     (* RemoveStore / buryStore under the other leader *)
+| FLabels (id : Z) (ls : list label)
+| FDelete (id : Z)                              (* RemoveTombStoneRecords under the other leader: record and weight keys *)
+| FNew (p : payload).                           (* a store registered with the other leader *)
+Definition apply_foreign (s : state) (c : fchange) : state :=
+  match c with
+  | FState id st pd =>
+      match aget (st_meta s) id with
+      | Some m => write_meta s id (Meta (m_addr m) st pd (m_labels m) (m_ver m))
+      | None => s
+      end
+  | FLabels id ls =>
+      match aget (st_meta s) id with
+      | Some m => write_meta s id (Meta (m_addr m) (m_state m) (m_pd m) ls (m_ver m))
+      | None => s
+      end
+  | FDelete id => set_rw (set_lw (del_meta s id) (adel (st_lw s) id)) (adel (st_rw s) id)
+  | FNew p => write_meta s (p_id p) (Meta (p_addr p) (p_state p) (p_pd p) (p_labels p)
+                                          (match p_ver p with Some v => v | None => (0, 0, 0) end))
+  end.
+Inductive hop := HOp (o : op) | HRestart | HBulk (ps : list payload)   (* HBulk: that many PutStore calls, observed once at the end *)
+| HReelect (fs : list fchange).   (* this member steps down, another leader makes these changes, this member is elected again WITHOUT a process restart *)
 Definition run_hop (s : state) (h : hop) : state * obs :=
   match h with
   | HOp o => run_op s o
   | HRestart => let s' := restart s in (s', snapshot s' ROk)
   | HBulk ps => let s' := fold_left (fun a p => fst (do_put a p NoFault)) ps s in (s', snapshot s' ROk)
+  | HReelect fs => let s' := restart (fold_left apply_foreign fs s) in (s', snapshot s' ROk)
   end.
 Definition rcase := (ver * payload * list hop * list obs)%type.
 Definition model_robs (c : rcase) : list obs :=
@@ -812,6 +836,10 @@ Fixpoint mon_run_r (past : list op) (rg : amap (list Z)) (hs : list hop) (prev :
       (mon_step past rg o prev b ++ mon_env past o b ++
        mon_run_r (o :: past) (match o with ORegion g st => aset rg g st | _ => rg end) r b br)%list
   | HRestart :: r, b :: br => (mon_reload prev b ++ mon_run_r past [] r b br)%list
+  | HReelect _ :: r, b :: br =>
+      (* the re-elected leader serves exactly what storage holds NOW (the other leader's changes included) *)
+      ((if list_eqb entry_proj_eqb (o_stored b) (o_served b) then [] else ["C14:re-elected-leader-serves-stale-store-records"]) ++
+       mon_run_r past [] r b br)%list
   | HBulk _ :: r, b :: br => ((if addr_unique (o_served b) then [] else ["C14:duplicate-live-address"]) ++ mon_run_r past rg r b br)%list
   | _, _ => []
   end.
